@@ -413,7 +413,13 @@ func (x *exec) round(rep *sim.Replica, f *fault, randStep uint64) (rr roundResul
 			case core.ImportEventWarning:
 				rr.Events["warning"]++
 			default:
-				rr.Events[fmt.Sprintf("ev%d", int(ev.Event))]++
+				name, ok := map[core.ImportEvent]string{core.ImportEventBug: "bug", core.ImportEventComment: "comment", core.ImportEventCommentEdition: "comment-edition",
+					core.ImportEventStatusChange: "status-change", core.ImportEventTitleEdition: "title-edition", core.ImportEventLabelChange: "label-change",
+					core.ImportEventIdentity: "identity", core.ImportEventRateLimiting: "rate-limiting"}[ev.Event]
+				if !ok {
+					name = fmt.Sprintf("ev%d", int(ev.Event))
+				}
+				rr.Events[name]++
 				rr.Imported++
 			}
 		}
